@@ -367,6 +367,76 @@ func genExploreCase(r *Rng) *ECase {
 	return c
 }
 
+// countingRT answers every probe at once and counts the probes per target
+type countingRT struct {
+	mu sync.Mutex
+	n  map[string]int
+}
+
+func (c *countingRT) RoundTrip(req *http.Request) (*http.Response, error) {
+	c.mu.Lock()
+	c.n[req.URL.Host]++
+	c.mu.Unlock()
+	return &http.Response{StatusCode: 200, Status: "200 OK", Header: http.Header{"Content-Type": []string{"text/plain"}},
+		Body: io.NopCloser(strings.NewReader(expoPayload(3, 5))), Request: req}, nil
+}
+
+// exploreFlood: more undiscovered targets are asked for at once than the explorer's queue holds;
+// every one of them must still be probed exactly once and end up with its estimate
+func exploreFlood(n int) *Violation {
+	lg := quietLog()
+	cfgm := prom.NewConfigManager()
+	sm := scrape.New(false, lg)
+	cfgm.AddReloadCallbacks(sm.ApplyConfig)
+	if err := cfgm.ReloadFromRaw([]byte(sidecarCfg)); err != nil {
+		return &Violation{Property: "C20", Clause: "harness", Signature: "harness-error", What: err.Error()}
+	}
+	rt := &countingRT{n: map[string]int{}}
+	for _, j := range []string{"job0", "job1"} {
+		sm.GetJob(j).Cli = &http.Client{Transport: rt}
+	}
+	exp := explore.New(sm, prometheus.NewRegistry(), lg)
+	ctx, cancel := context.WithCancel(context.Background())
+	defer cancel()
+	go func() { _ = exp.Run(ctx, 16) }()
+	m := map[string][]*discovery.SDTargets{}
+	for h := 1; h <= n; h++ {
+		job := fmt.Sprintf("job%d", h%2)
+		m[job] = append(m[job], &discovery.SDTargets{Job: job, ShardTarget: &target.Target{Hash: uint64(h),
+			Labels: labels.FromStrings("__address__", fmt.Sprintf("h%d.flood:80", h), "__scheme__", "http", "__metrics_path__", "/metrics")}})
+	}
+	exp.UpdateTargets(m)
+	deadline := time.Now().Add(60 * time.Second)
+	missing := 0
+	for round := 0; ; round++ {
+		missing = 0
+		for h := 1; h <= n; h++ {
+			st := exp.Get(uint64(h))
+			if st == nil || st.Health != "up" {
+				missing++
+			}
+		}
+		if missing == 0 || time.Now().After(deadline) {
+			break
+		}
+		time.Sleep(100 * time.Millisecond)
+	}
+	rt.mu.Lock()
+	defer rt.mu.Unlock()
+	twice := 0
+	for _, k := range rt.n {
+		if k > 1 {
+			twice++
+		}
+	}
+	if missing > 0 || twice > 0 || len(rt.n) != n {
+		return &Violation{Property: "C20", Clause: "flood", Signature: "C20/flood",
+			What: fmt.Sprintf("%d targets asked for at once (more than the explorer's queue holds): %d never got their estimate although asked for repeatedly, %d were probed more than once, %d distinct targets were probed", n, missing, twice, len(rt.n)),
+			Case: map[string]interface{}{"flood": n}}
+	}
+	return nil
+}
+
 func runExplore(a Args) *Result {
 	res := newResult("explore", a.seed, a.tier)
 	res.Rule = "scripted interleavings of Get / discovery updates / reloads with probes of 1-3 workers that block in an in-memory transport until released with a chosen result (failure patterns before the first success), retry interval 12 ms; the linearised event log is validated against Explore.step with timers firing at any moment; non-trivial = at least one failed probe and one removal; distinct by event log"
@@ -377,6 +447,13 @@ func runExplore(a Args) *Result {
 	}
 	if a.n > 0 {
 		n = a.n
+	}
+	if a.replay == "" && a.wants("C20") {
+		if v := exploreFlood(10300); v != nil {
+			res.ImplViol = append(res.ImplViol, *v)
+		}
+		res.Evaluations++
+		res.count("flood_case_10300_targets")
 	}
 	type item struct {
 		c    *ECase
